@@ -33,6 +33,8 @@ def pad_fw(image):
 
 def version_of(payload):
     """('ok', v) / ('fallback', '1.4') / ('undecided', None)."""
+    if sum(1 for ch in payload if ch.isdigit()) > 4000:
+        return ("undecided", None)       # more digits than int() converts
     m = _VER.match(payload)
     if m:
         return ("ok", payload) if (int(m.group(1)), int(m.group(2))) >= (1, 4) else ("fallback", "1.4")
